@@ -242,10 +242,12 @@ class C04:
                 ctx.undec("R04.2", site, f"{len(trigs)} raise statements (expected 1)")
             else:
                 g, r = trigs[0]
-                loops = [s.loops[l] for l in r.loops]
+                from sa.idioms import existential
+                binders, g = existential(r.live, s)
                 want_iter = ("attr", p, "clip_annotations")
-                ok_loop = len(loops) == 1 and loops[0].iter == want_iter and not loops[0].conds
-                e = ("elem", loops[0].id) if loops else None
+                ok_loop = len(binders) == 1 and binders[0][1] == want_iter
+                e = ("elem", binders[0][0]) if binders else None
+                loops = [s.loops[b[0]] for b in binders if b[0] in s.loops]
                 lhs = ("attr", ("attr", e, "clip"), "uuid") if e else None
                 setcomp = None
                 good = False
